@@ -44,7 +44,7 @@ def build_corpus(tier, seed):
         protos.append(([("cmd", v) for v in variants], defs))
     cases, lay_in = [], []
     for g, (vs, defs) in enumerate(protos):
-        recipes = [("=", True, None, None)] + variants_of(rnd, vs, defs, (2 if tier == "quick" else 5) + (3 if len(defs) >= 3 and g >= ngram else 0))
+        recipes = [("=", True, None, None)] + variants_of(rnd, vs, defs, (2 if tier == "quick" else 5) + (8 if len(defs) >= 3 and g >= ngram else 0))
         for r, (assign, semi, order, wrap) in enumerate(recipes):
             toks, ast = gen.statements_tokens(vs, defs, assign=assign, semi=semi, order=order, wrap=wrap)
             layout.annotate(toks)
